@@ -292,6 +292,8 @@ pub struct Outcome<T> {
     pub n_events: u64,
     /// number of decision points with at least two candidates
     pub choice_points: u64,
+    /// number of `rand::rng()` calls made inside the simulation
+    pub rng_calls: u64,
 }
 
 // ---------------------------------------------------------------------------
@@ -327,6 +329,8 @@ struct Task {
     rng_calls: u64,
     /// set when a timed wait ended by its deadline
     timed_out: bool,
+    /// decisions in a row at which the task was runnable and another one was chosen
+    passed_over: u64,
 }
 
 #[derive(Default)]
@@ -678,6 +682,16 @@ impl Sched {
                     pool[self.sched_rng.below(pool.len() as u64) as usize]
                 }
                 Strategy::Pct(_) => {
+                    // aging: a task that has been runnable and passed over 300 times in a row
+                    // runs now. Without it two higher-priority tasks that hand work back and
+                    // forth (neither ever runs 200 steps in a row) starve everybody else for
+                    // ever, which no real scheduler does — a false step-bound alarm on a rewrite
+                    // with a source/sink thread pair per worker.
+                    if let Some(&starved) = cands.iter().filter(|&&t| self.tasks[t].passed_over >= 300).max_by_key(|&&t| (self.tasks[t].passed_over, std::cmp::Reverse(t))) {
+                        self.note_pick(cands, starved);
+                        self.trace.push(starved as u32);
+                        return starved;
+                    }
                     if self.pct_points.contains(&self.step) || self.consecutive >= 200 {
                         // demote the current task below everything else
                         self.next_low_priority = self.next_low_priority.saturating_sub(1);
@@ -693,8 +707,20 @@ impl Sched {
                 }
             }
         };
+        self.note_pick(cands, pick);
         self.trace.push(pick as u32);
         pick
+    }
+
+    /// bookkeeping for the aging rule: how often in a row a runnable task was not chosen
+    fn note_pick(&mut self, cands: &[TaskId], pick: TaskId) {
+        for &t in cands {
+            if t == pick {
+                self.tasks[t].passed_over = 0;
+            } else {
+                self.tasks[t].passed_over += 1;
+            }
+        }
     }
 
     fn runnable(&self) -> Vec<TaskId> {
@@ -746,6 +772,7 @@ impl Sched {
             stalled_until: 0,
             rng_calls: 0,
             timed_out: false,
+            passed_over: 0,
         });
         id
     }
@@ -1770,5 +1797,6 @@ pub fn run<T>(cfg: Config, root: impl FnOnce() -> T) -> Outcome<T> {
         event_hash: g.hash,
         n_events: g.n_events,
         choice_points: g.choice_points,
+        rng_calls: g.tasks.iter().map(|t| t.rng_calls).sum(),
     }
 }
